@@ -95,6 +95,9 @@ def _load_decorators(obj_dict: dict) -> list[Decorator]:
 def _load_expression(expression: dict) -> expressions.Expr:
     # The expression class name is stored in the `cls` key-value.
     cls = getattr(expressions, expression.pop("cls"))
+    # Parameter kinds are dumped as their value.
+    if cls is expressions.ExprParameter and "kind" in expression:
+        expression["kind"] = ParameterKind(expression["kind"])
     expr = cls(**expression)
 
     # For attributes, we need to re-attach names (`values`) together,
